@@ -255,6 +255,57 @@ def c01_to_index(out, obl):
             out.violation("to_index-arms", "-", "build_to_index_fn does not map the i-th variant to the plain index i: %s" % ([(p, [e[0].split("::")[-1] + ":" + e[1][0][:20] for e in a]) for p, a in arms][:3],))
 
 
+def c09_kernels(out):
+    """owned <-> borrowed adaptation of operands (change_owned) and base-form detection (to_ref_elem)"""
+    eng = engine()
+    obl = e3.Obligations("C09")
+    ex = eng.executor()
+    ex.trace = _All()
+    fn = eng.find("change_owned")
+    res = ex.run(fn, eng.args_for(fn))
+    obl.note_paths("change_owned", res, ex)
+    i, o = ex.bvar("input_ref"), ex.bvar("output_ref")
+    for r in res:
+        if r.kind != "return":
+            out.inconclusive.append("fn=change_owned reason=%s" % (r.value,))
+            continue
+        idents = [e[1][-1] for e in r.events if e[0].endswith("push_ident")]
+        interp = any(e[0].endswith("to_tokens") for e in r.events)
+        clones = "str:Clone" in idents and "str:clone" in idents
+        borrows = any(e[0].endswith("push_and") for e in r.events) and not clones
+        asis = isinstance(r.value, mx.Sym) and mx.pstr(r.value.path) == "expr"
+        # clone exactly when received by reference but needed by value; re-borrow exactly when owned but needed by reference; otherwise pass on unchanged
+        obl.check_unsat(ex, "change_owned:clone", list(r.pc) + [z3.And(i, z3.Not(o)) if not clones else z3.Not(z3.And(i, z3.Not(o)))], info="clone")
+        obl.check_unsat(ex, "change_owned:borrow", list(r.pc) + [z3.And(z3.Not(i), o) if not borrows else z3.Not(z3.And(z3.Not(i), o))], info="borrow")
+        obl.check_unsat(ex, "change_owned:as-is", list(r.pc) + [(i == o) if not asis else (i != o)], info="as-is")
+    e3.coverage_check(ex, obl, "change_owned", res)
+    ex = eng.executor()
+    ex.trace = _All()
+    fn = eng.find("to_ref_elem")
+    res = ex.run(fn, eng.args_for(fn))
+    obl.note_paths("to_ref_elem", res, ex)
+    types = eng.ti.enums.get("Type")
+    if types and "Reference" in types:
+        d = ex.ivar("disc(ty)", 0, len(types) - 1)
+        lt = ex.ivar("disc(ty.<Reference>.0.1)", 0, 1) == 0  # no lifetime
+        mu = ex.ivar("disc(ty.<Reference>.0.2)", 0, 1) == 0  # not `mut`
+        want = z3.And(d == types.index("Reference"), lt, mu)
+        for r in res:
+            if r.kind != "return" or not isinstance(r.value, mx.Agg) or len(r.value.fields) != 2:
+                out.inconclusive.append("fn=to_ref_elem reason=%s" % (r.value,))
+                continue
+            flag = r.value.fields[1]
+            flag = flag if z3.is_expr(flag) else z3.BoolVal(bool(flag))
+            obl.check_unsat(ex, "to_ref_elem:is-ref", list(r.pc) + [flag != want], info="base form detection")
+            elem = "ty.<Reference>.0.3" in ex.summ(mx.State(), r.value.fields[0])
+            obl.check_unsat(ex, "to_ref_elem:elem", list(r.pc) + [want if not elem else z3.Not(want)], info="referent")
+    else:
+        out.inconclusive.append("fn=to_ref_elem reason=syn::Type variant order not found")
+    for label, m, info in obl.failed:
+        out.violation("e3|%s" % label, "-", "MIR path of %s disagrees with the documented operand adaptation (%s)" % (label, info))
+    return obl
+
+
 def c08_tables(out):
     """operator name tables: trait name <-> enum <-> method name are mutually consistent for all 22 operator traits"""
     eng = engine()
